@@ -19,25 +19,33 @@ INVARIANT C03_MechanismMutual
 PROPERTY C03_StepOnlySelected
 PROPERTY C03_NoStepAfterError
 PROPERTY C03_AuthnStable
+PROPERTY C03_SessionFresh
 CHECK_DEADLOCK FALSE
 '''
 PROPS = ["C03_ClientAuthn", "C03_ServerAuthn", "C03_MechanismMutual", "C03_StepOnlySelected",
-         "C03_NoStepAfterError", "C03_AuthnStable"]
+         "C03_NoStepAfterError", "C03_AuthnStable", "C03_SessionFresh"]
 
 
-def consts(maxpeer=99, maxsteps=99, dev=()):
-    return ac.SASL_CONSTS % dict(maxpeer=maxpeer, maxsteps=maxsteps, dev=ac.dev_set(dev))
+SHARED_STRIDE = (2, 16)   # shared family: every n-th pair (quick: schedules in rotation; thorough: all three schedules)
+
+
+def consts(maxpeer=99, maxsteps=99, dev=(), maxsess=99):
+    return ac.SASL_CONSTS % dict(maxpeer=maxpeer, maxsteps=maxsteps, dev=ac.dev_set(dev), maxsess=maxsess)
 
 
 def nonvacuous(ctx):
     """The invariants must be able to fail: with a deviation switched on TLC has to find it."""
-    for role, dev, inv in (("client", "ExitWithoutSuccess", "C03_ClientAuthn"),
-                           ("server", "SkipPermission", "C03_ServerAuthn")):
-        cfg = consts(3, 2, [dev]).replace('Roles = {"client","server"}', 'Roles = {"%s"}' % role) + MC_CFG
+    runs = (("client", "ExitWithoutSuccess", "C03_ClientAuthn"),
+            ("server", "SkipPermission", "C03_ServerAuthn"),
+            # (a negotiator that survives into the next session: TLC reports the invariant it breaks first - the
+            # stale mechanism was not advertised in this session - or the action property itself)
+            ("server", "KeepStateAcrossSessions", "C03_MechanismMutual|C03_SessionFresh"))
+    for role, dev, inv in runs:
+        cfg = consts(3, 2, [dev], maxsess=2).replace('Roles = {"client","server"}', 'Roles = {"%s"}' % role) + MC_CFG
         r = ctx.tlc("MCSASL", cfg, timeout=300, name="MCSASL")
-        if inv not in r.violated:
+        if not set(inv.split("|")) & set(r.violated):
             raise verif.Undecided("non-vacuity: deviation %s does not violate %s:\n%s" % (dev, inv, r.out[-1500:]))
-    return 2
+    return len(runs)
 
 
 def selftest_binding(ctx, trs):
@@ -77,6 +85,16 @@ def selftest_binding(ctx, trs):
     m = [dict(e) for e in s]
     del m[has(m, "perm")[-1]]
     mutants.append(("server: perm event removed", m))
+    # two sessions negotiated with one feature value (one trace, "newsess" between them): the second
+    # session cannot live on the first one's exchange
+    two = [tr for tr in trs.values() if has(tr, "newsess") and tr[-1].get("authn")
+           and [i for i in has(tr, "step") if i > has(tr, "newsess")[0]] and [i for i in has(tr, "step") if i < has(tr, "newsess")[0]]]
+    if not two:
+        raise verif.Undecided("binding self-test: no two-session trace whose second session authenticates")
+    m = [ac.strip(e) for e in two[0]]
+    cut = has(m, "newsess")[0]
+    m = [e for i, e in enumerate(m) if not (i > cut and e["ev"] in ("step", "perm"))]
+    mutants.append(("shared feature value: steps and verdicts of the second session removed", m))
     p = ctx.path("selftest.ndjson")
     ac.write_batch(p, [c, s] + [x for _, x in mutants])
     rej, _ = ac.validate(ctx, "TrSASL", consts(), p, name="TrSASL-selftest")
@@ -114,7 +132,7 @@ def describe(tr, hw):
 def run(ctx):
     quick = ctx.tier == "quick"
     pool, _ = ac.emit(ctx, "EmitSASL", consts(4, 3) + "INIT EInit\nNEXT ENext\n", ["sasl_pool.json"])
-    mc = ctx.model_check("MCSASL", consts(4 if quick else 5, 3 if quick else 4) + MC_CFG, PROPS, timeout=1500)
+    mc = ctx.model_check("MCSASL", consts(4 if quick else 5, 3 if quick else 4, maxsess=2) + MC_CFG, PROPS, timeout=1500)
     nv = nonvacuous(ctx)
 
     b = ctx.go_build("sasl")
@@ -126,9 +144,28 @@ def run(ctx):
         out = ctx.run_driver(b, ["run", pool["sasl_pool.json"], p, tr], timeout=600)
     else:
         env = {"SASL_CDEPTH": "4" if quick else "5", "SASL_SDEPTH": "3" if quick else "4",
-               "SASL_SDEPTH_FULL": "0" if quick else "3"}
+               "SASL_SDEPTH_FULL": "0" if quick else "3", "SASL_SHARED_STRIDE": str(SHARED_STRIDE[0] if quick else SHARED_STRIDE[1])}
         out = ctx.run_driver(b, ["explore", pool["sasl_pool.json"], tr], env=env, timeout=1500)
     summ = ac.summary_of(out)
+    if not ctx.replay:
+        # binding self-test of the shared-feature-value comparison: with a corrupted reference run the driver
+        # must report the session as behaving differently
+        probe = {"fam": "shared", "role": "server", "local": ["M1", "M2"], "sched": "seq", "sessions": [
+            {"fam": "script", "role": "server", "local": ["M1", "M2"], "adv": [], "dev": "", "pwok": False,
+             "script": [{"more": False, "err": False, "perm": "yes"}], "peer": [{"k": "auth", "p": "ok", "m": "M1"}]}] * 2}
+        pp = ctx.path("shared-selftest.ndjson")
+        open(pp, "w").write(json.dumps(probe) + "\n")
+        for corrupt in ("0", "1"):
+            o2 = ctx.run_driver(b, ["run", pool["sasl_pool.json"], pp, ctx.path("shared-selftest-trace.ndjson")],
+                                env={"SASL_SELFTEST_CORRUPT": corrupt}, timeout=120)
+            mm = ac.summary_of(o2)["mismatches"]
+            if corrupt == "0" and mm:
+                # the probe itself behaves differently when the feature value is shared: a finding, not a
+                # problem of the self-test
+                summ["mismatches"] = mm + summ["mismatches"]
+                break
+            if corrupt == "1" and len(mm) != 1:
+                raise verif.Undecided("binding self-test: shared-feature-value comparison with a corrupted reference run reported %d differences, want 1" % len(mm))
     rej, r = ac.validate(ctx, "TrSASL", consts(), tr)
     ctx.log("validated %d traces / %d events: %d rejected (TLC %d states, %.1fs)" % (
         summ["traces"], summ["events"], len(rej), r.distinct, r.wall))
@@ -157,20 +194,30 @@ def run(ctx):
                       {"family": "sasl", "scenario": meta.get(t), "trace": [ac.strip(x) for x in trs[t]],
                        "rejected_line": hw, "rejected_event": ac.strip(e) if e else None, "expected": "a behaviour of tla/SASL.tla",
                        })
+    # sessions negotiated with one feature value that do not behave as they do alone
+    for m in summ["mismatches"][:10]:
+        first = next((k for k, (x, y) in enumerate(zip(m["shared"], m["alone"])) if ac.strip(x) != {k2: v for k2, v in y.items()}), min(len(m["shared"]), len(m["alone"])))
+        ctx.violation("%s: first differing event %d: %s (alone: %s); scenario %s" % (
+            m["what"], first + 1, json.dumps(m["shared"][first]) if first < len(m["shared"]) else None,
+            json.dumps(m["alone"][first]) if first < len(m["alone"]) else None, json.dumps(m["scenario"])[:400]),
+            {"family": "sasl-shared", "scenario": m["scenario"], "session": m["session"], "observed": m["shared"],
+             "expected": m["alone"], "expected_rule": "every session negotiated with a shared feature value behaves as it does with a feature value of its own"})
     nself = selftest_binding(ctx, {t: x for t, x in trs.items() if t not in rej}) if not ctx.replay else 0
     ctx.write_evidence("model_checking", {
         "states": mc.distinct, "transitions": mc.generated, "depth": mc.depth,
         "traces_validated_against_impl": summ["traces"], "trace_events": summ["events"], "trace_states": r.distinct,
         "evaluations": summ["evaluations"], "distinct_nontrivial": summ["distinct"],
         "authenticated_runs": summ["extra"]["authn"], "runs_by_family": summ["extra"]["by_family"],
+        "shared_feature_value_runs": summ["extra"].get("shared_runs", 0), "shared_feature_value_runs_differing": summ["extra"].get("shared_runs_differing", 0),
         "rejected": len(rej), "tolerated_known": len(tolerated),
         "nonvacuity_runs_violating": nv, "binding_selftest_mutants_rejected": nself,
         "exhaustive": "peer sequences: every reachable prefix up to length %s (client) / %s (server) over the alphabets of SASL.tla; scripts: all of length <= 3" % (
             ("4", "3 (payload variants on the first offered mechanism only)") if quick
             else ("5", "4 (reduced alphabet, basic scripts) and 3 (full alphabet, all scripts incl. early permission checks)")),
-        "design_check": "MCSASL: both roles, every ordered sublist of {M1,M2,M3} as configuration (and of {M1,M2,M3,UNK} as advertisement), <= %d peer items, <= %d steps per negotiator" % (
+        "design_check": "MCSASL: two sessions negotiated one after the other with the same feature value, both roles, every ordered sublist of {M1,M2,M3} as configuration (and of {M1,M2,M3,UNK} as advertisement), <= %d peer items, <= %d steps per negotiator" % (
             (4, 3) if quick else (5, 4)),
-        "rule": "script family: scripted sasl.Mechanism values (Start/Next return the scripted more/err, consult the permission callback where the script says so) x depth-first tree of peer items, a prefix is extended only when the session asked for more input; selection family: every pair (local list, advertised list); real family: sasl.Plain / SCRAM-SHA-1 / SCRAM-SHA-256 on both ends with a deviating counterpart",
+        "rule": "script family: scripted sasl.Mechanism values (Start/Next return the scripted more/err, consult the permission callback where the script says so) x depth-first tree of peer items, a prefix is extended only when the session asked for more input; selection family: every pair (local list, advertised list); real family: sasl.Plain / SCRAM-SHA-1 / SCRAM-SHA-256 on both ends with a deviating counterpart; shared family: per feature value (role, mechanisms, script) three first sessions (authenticates / leaves mid-exchange / mechanism failed) x %s run of the other families as second session, negotiated with ONE feature value and Negotiator one after the other, alternating at every read, or nested (%s); every session is compared event by event with the same session negotiated alone, successive sessions are validated by TLC as one trace (NewSession)" % (
+            ("every %d-th" % (SHARED_STRIDE[0] if quick else SHARED_STRIDE[1])), "schedules in rotation" if quick else "all three schedules"),
         "samples": summ["samples"][:2],
     }, assumptions=[
         "a server-side mechanism completes only after consulting the permission callback (as PLAIN does); a mechanism that never asks is not held against sasl.go",
